@@ -30,7 +30,8 @@ ASSUMPTIONS = [
     'end-to-end histories use successful executions only and at most ~40 unit executions (each value costs two digest subprocesses)',
 ]
 FLOORS = {
-    'quick': {'evaluations': 300, 'reports_checked': 3000, 'nodes_compared': 20000, 'expected_units_followed_up': 1500, 'nontrivial': 150},
+    'quick': {'evaluations': 300, 'reports_checked': 3000, 'nodes_compared': 20000, 'expected_units_followed_up': 1500, 'nontrivial': 150,
+              'e2e_histories': 5, 'e2e_values_compared': 40},
     'thorough': {'evaluations': 5000, 'reports_checked': 60000, 'nontrivial': 3000},
 }
 BUDGET = {'quick': 25.0, 'thorough': 600.0}
@@ -252,11 +253,169 @@ OPTS = {'profile': profile, 'lengths': [20, 40, 80, 120], 'ntargets': [1, 2, 2, 
 
 
 def plan(tier, seed):
-    return [{'seed': seed * 1000 + 200 + i, 'budget': BUDGET[tier]} for i in range(16)]
+    specs = [{'seed': seed * 1000 + 200 + i, 'budget': BUDGET[tier], 'mode': 'sched'} for i in range(11)]
+    specs += [{'seed': seed * 1000 + 250 + i, 'budget': BUDGET[tier], 'mode': 'e2e'} for i in range(5)]
+    return specs
+
+
+# ---------------------------------------------------------------------------
+# (b) end to end
+def gen_e2e_case(rng):
+    from .. import aegen  # pylint: disable=import-outside-toplevel
+
+    spec = aegen.generate(
+        rng, n_algs=rng.choice([2, 3, 4, 5, 6]), p_event=0.0, p_feedback=0.0, p_analysis=0.25, p_regress=0.0,
+        max_svs=2, max_vals=2, shape=rng.choice(['random', 'chain', 'diamond', 'fan', 'deep']),
+    )
+    for tk in spec['tasks']:
+        for a in tk['algs']:
+            a['where'] = 'cluster'
+    nt = rng.choice([1, 2, 2])
+    return {'spec': spec, 'targets': [f'T{i}' for i in range(nt)], 'prerecord': [], 'script': None, 'e2e': True}
+
+
+def e2e_drain(sim, max_rounds=200):
+    '''dispatch; every worker really executes its unit; repeat until nothing is left'''
+    for _ in range(max_rounds):
+        if not sim.inflight() and not any(n.get('todo') for n in sim.nodes().values()):
+            return True
+        idle = [w for w in sim.workers.values() if not w.lost and w.task is None]
+        need = len(sim.farm._cluster) + 3  # pylint: disable=protected-access
+        for _i in range(max(0, need - len(idle))):
+            sim.e2e_wid = getattr(sim, 'e2e_wid', 800000) + 1  # worker ids are unique within a history
+            sim.apply({'op': 'connect', 'w': sim.e2e_wid, 'host': 'e2e', 'rev': 'good'})
+        sim.apply({'op': 'dispatch'})
+        for w in sorted([w for w in sim.workers.values() if w.task is not None], key=lambda k: k.wid):
+            sim.apply({'op': 'reply', 'w': w.wid, 'outcome': 'success', 'real': True})
+        if sim.bad:
+            return False
+    return False
+
+
+def run_e2e_case(case, res, rng=None):
+    '''returns (bad, sim)'''
+    # pylint: disable=too-many-locals,too-many-branches,too-many-statements
+    from .. import aegen, e2e, netsim  # pylint: disable=import-outside-toplevel
+
+    w = simprops.get_world()
+    if not hasattr(w, 'net'):
+        w.net = netsim.Net(w.reactor).install()
+    monitors = make_monitors()
+    sim = simfarm.Sim(w, case['spec'], case['targets'], case['prerecord'], monitors)
+    sim.exec = e2e.Exec(sim)
+    bad = []
+    ref = aegen.Reference(case['spec'])
+    roots = [t for t in ref.order if not ref.parents[t]]
+    try:
+        if case['script'] is None:
+            # phase 1: first boot, everything runs
+            ok = e2e_drain(sim)
+            script = []
+            wid = 700000
+            for _round in range(rng.choice([1, 2, 3])):
+                if not ok or sim.bad:
+                    break
+                # a root is re-run with never-seen content for a chosen subset of its values
+                for _k in range(rng.choice([1, 1, 2])):
+                    r = rng.choice(roots)
+                    alg = ref.algs[r]
+                    allv = [(sv['name'], v['name']) for sv in alg['svs'] for v in sv['vals']]
+                    vals = rng.sample(allv, rng.randint(0, len(allv)))
+                    tgs = ['__all__'] if ref.kind[r] == 'analysis' else rng.sample(case['targets'], rng.randint(1, len(case['targets'])))
+                    for tg in tgs:
+                        ev = {'op': 'salt', 'tag': r, 'target': tg, 'vals': [list(v) for v in vals]}
+                        sim.apply(ev)
+                        script.append(ev)
+                    ev = {'op': 'run', 'names': [r], 'targets': tgs}
+                    sim.apply(ev)
+                    script.append(ev)
+                    # partial progress in random order before the next change arrives
+                    for _s in range(rng.randint(0, 6)):
+                        busy = sorted([x for x in sim.workers.values() if x.task is not None], key=lambda k: k.wid)
+                        k = rng.random()
+                        if busy and k < 0.5:
+                            ev = {'op': 'reply', 'w': rng.choice(busy).wid, 'outcome': 'success', 'real': True}
+                        elif k < 0.8:
+                            ev = {'op': 'dispatch'}
+                        else:
+                            wid += 1
+                            ev = {'op': 'connect', 'w': wid, 'host': 'e2e', 'rev': 'good'}
+                        sim.apply(ev)
+                        script.append(ev)
+                        if sim.bad:
+                            break
+                ok = e2e_drain(sim)
+                script.append({'op': 'e2e_drain'})
+            case['script'] = script
+        else:
+            ok = e2e_drain(sim)
+            for ev in case['script']:
+                if sim.bad or not ok:
+                    break
+                if ev['op'] == 'e2e_drain':
+                    ok = e2e_drain(sim)
+                    continue
+                if ev['op'] == 'reply' and ev['w'] not in sim.workers:
+                    continue
+                sim.apply(dict(ev))
+        res.count('e2e_histories')
+        res.count('e2e_unit_executions', len(sim.exec.log))
+        if sim.bad:
+            for clause, detail, mech in sim.bad[:1]:
+                bad.append((clause, detail))
+        elif not ok:
+            bad.append(('quiescence', 'end-to-end history did not reach quiescence'))
+        else:
+            want = sim.exec.from_scratch(case['targets'])
+            got = sim.exec.stored(case['targets'])
+            res.count('e2e_values_compared', len(want))
+            for key in sorted(want):
+                if got.get(key) != want[key]:
+                    g = got.get(key)
+                    bad.append(
+                        ('stored-equals-from-scratch',
+                         f'{key[1]} on {key[0]}: the store holds salt={g.get("salt") if isinstance(g, dict) else g} inputs={str(g.get("in") if isinstance(g, dict) else None)[:120]}; '
+                         f'a from-scratch run in dependency order yields salt={want[key]["salt"]} inputs={str(want[key]["in"])[:120]} '
+                         f'(executions: {len(sim.exec.log)})')
+                    )
+                    break
+            reruns = len(sim.exec.log) - len(want)
+            if reruns > 0:
+                res.see('nontrivial', simprops.h64([ref.shape_hash(), case['script']]))
+        for m in monitors:
+            m.finish(sim, res, ref.shape_hash())
+    finally:
+        sim.exec.close()
+        sim.close()
+    return bad, sim
+
+
+def run_e2e(spec, res):
+    import random  # pylint: disable=import-outside-toplevel
+
+    rng = random.Random(spec['seed'])
+    n = 0
+    while res.elapsed() < spec['budget'] * 0.6 or n < 1:
+        case = gen_e2e_case(rng)
+        bad, sim = run_e2e_case(case, res, rng)
+        n += 1
+        res.count('evaluations')
+        if n <= 1:
+            res.sample({'mode': 'end-to-end', 'targets': case['targets'], 'script': case['script'][:12], 'executions': sim.exec.log[:12]})
+        for clause, detail in bad[:1]:
+            res.violation(clause, detail, {k: case[k] for k in ('spec', 'targets', 'prerecord', 'script', 'e2e')}, mechanism='C02/' + clause)
+        if n % 5 == 0:
+            simprops.get_world().prune_engines()
 
 
 def run_shard(spec):
     boot.init()
+    if spec.get('mode') == 'e2e':
+        from ..result import Result  # pylint: disable=import-outside-toplevel
+
+        res = Result()
+        run_e2e(spec, res)
+        return res
     opts = dict(OPTS)
     if spec['tier'] == 'thorough':
         opts['sizes'] = [3, 4, 5, 6, 8, 10, 12, 16, 20]
@@ -266,4 +425,13 @@ def run_shard(spec):
 
 def replay(witness):
     boot.init()
+    if witness.get('e2e'):
+        from ..result import Result  # pylint: disable=import-outside-toplevel
+
+        res = Result()
+        bad, _sim = run_e2e_case(dict(witness), res)
+        for clause, detail in bad[:1]:
+            res.violation(clause, detail, witness, mechanism='C02/' + clause)
+        res.count('evaluations')
+        return res
     return simprops.replay_witness(witness, make_monitors, ID, classify)
